@@ -95,7 +95,13 @@ class Gen:
                 continue
             if rng.random() < dens: e.set_style(p, rvalue(rng, p))
             if rng.random() < self.ad:
-                e.add_animation_step(m.DiscreteAnimationStep(p, rtime(rng, 6), rtime(rng, 8), rvalue(rng, p)))
+                # one time in three a step value-equal to one already used on another element (frozen dataclass: equal hash),
+                # whose own time base differs: anything keyed by the step instead of by (element, step) shows
+                pool = self.__dict__.setdefault("step_pool", {}).setdefault(p.__name__, [])
+                if pool and rng.random() < 0.35: st = rng.choice(pool)
+                else:
+                    st = m.DiscreteAnimationStep(p, rtime(rng, 6), rtime(rng, 8), rvalue(rng, p)); pool.append(st)
+                e.add_animation_step(m.DiscreteAnimationStep(st.style_property, st.begin, st.end, st.value))
 
     def timing(self, e):
         rng = self.rng
@@ -117,6 +123,11 @@ class Gen:
     def text(self, parent):
         rng = self.rng; self.n += 1; k = self.n
         t = rng.choice(["T%d" % k, " T%d " % k, "  ", " a  b%d" % k, "x%d\n y" % k, "\tq%d" % k, "", "r%d \r\n" % k, " "])
+        if rng.random() < 0.12:
+            # characters that Unicode calls white space but XML does not (S ::= #x20 | #x9 | #xD | #xA): they are content and
+            # must survive white-space handling untouched, at the edges of a text node as well as inside it
+            u = rng.choice(["\u00a0", "\u3000", "\u2003", "\u202f", "\u2009", "\u0085", "\u000b", "\u000c", "\u001f", "\u2028"])
+            t = rng.choice([u + t, t + u, u, "a" + u + u + "b%d" % k, " " + u + " ", t + " " + u])
         parent.push_child(m.Text(self.d, t))
 
     def span(self, depth, allow_nested=True):
@@ -169,7 +180,7 @@ class Gen:
 
     def doc(self, nreg=None):
         rng = self.rng
-        d = self.d = m.ContentDocument(); self.regs = []
+        d = self.d = m.ContentDocument(); self.regs = []; self.step_pool = {}
         d.set_cell_resolution(m.CellResolutionType(rows=rng.choice([15, 15, 24, 1, 53]), columns=rng.choice([32, 32, 40, 1, 97])))
         d.set_px_resolution(m.PixelResolutionType(width=rng.choice([1920, 640, 1]), height=rng.choice([1080, 480, 7])))
         if rng.random() < 0.3: d.set_lang(rng.choice(["en", "fr-CA"]))
